@@ -9,8 +9,10 @@ import (
 	"encoding/json"
 	"flag"
 	"fmt"
+	"github.com/IrineSistiana/mosproxy/app/router"
 	"math/rand"
 	"os"
+	"path/filepath"
 	"runtime"
 	"sync"
 	"time"
@@ -160,7 +162,15 @@ func renderLine(e entry) []byte {
 var fillers = [][]byte{[]byte(""), []byte("   "), []byte("# a comment"), []byte("\t# domain:zzz.example"), []byte("#")}
 
 type session struct {
-	m *domainmatcher.MixMatcher
+	m  *domainmatcher.MixMatcher
+	rm interface{ Match([]byte) bool } // a set loaded by the router's own loader (several files)
+}
+
+func (s *session) match(w []byte) bool {
+	if s.rm != nil {
+		return s.rm.Match(w)
+	}
+	return s.m.Match(w)
 }
 
 func newSession() *session {
@@ -213,10 +223,59 @@ func (s *session) load(es []entry) {
 	}
 }
 
+// loadFiles writes the entries to nf files and loads them through the router's loadDomainSet.
+func (s *session) loadFiles(es []entry, nf int) {
+	dir, err := os.MkdirTemp("", "domset")
+	if err != nil {
+		panic(err)
+	}
+	defer os.RemoveAll(dir)
+	per := (len(es) + nf - 1) / nf
+	var files []string
+	type ln struct {
+		line []byte
+		re   name
+		isRe bool
+	}
+	var lines []ln
+	for f := 0; f < nf; f++ {
+		lo, hi := f*per, min(len(es), (f+1)*per)
+		if lo >= hi {
+			break
+		}
+		var b bytes.Buffer
+		for i, e := range es[lo:hi] {
+			l := renderLine(e)
+			lines = append(lines, ln{line: l, re: e.n, isRe: e.kind == "regexp"})
+			b.Write(l)
+			if i < hi-lo-1 || rng.Intn(2) == 0 { // the file's last line often has no newline
+				b.WriteString("\n")
+			}
+		}
+		fp := filepath.Join(dir, fmt.Sprintf("set-%d.txt", f))
+		os.WriteFile(fp, b.Bytes(), 0o644)
+		files = append(files, fp)
+	}
+	m, err := router.VerifLoadDomainSet(files)
+	for _, l := range lines {
+		if l.isRe {
+			tr.Emit("dm.add", "line", vtrace.Bytes(l.line), "re", l.re.js(), "isre", true)
+		} else {
+			tr.Emit("dm.add", "line", vtrace.Bytes(l.line), "isre", false)
+		}
+	}
+	if err != nil {
+		tr.Emit("dm.loaderr", "err", err.Error())
+		s.rm = domainmatcher.NewMixMatcher()
+		return
+	}
+	s.rm = m
+}
+
 func (s *session) probe(ns []name) {
 	res := make([]bool, len(ns))
 	for i, n := range ns {
-		res[i] = s.m.Match(n.wire())
+		res[i] = s.match(n.wire())
 	}
 	tr.Emit("dm.probe", "names", namesJS(ns), "res", res)
 }
@@ -227,7 +286,7 @@ func (s *session) probe(ns []name) {
 func (s *session) probeConcurrent(ns []name, workers int, dur time.Duration) {
 	want := make([]bool, len(ns))
 	for i, n := range ns {
-		want[i] = s.m.Match(n.wire())
+		want[i] = s.match(n.wire())
 	}
 	wires := make([][]byte, len(ns))
 	for i, n := range ns {
@@ -245,7 +304,7 @@ func (s *session) probeConcurrent(ns []name, workers int, dur time.Duration) {
 			n := 0
 			for t0 := time.Now(); bad < 0; n++ {
 				i := (w + n) % len(wires)
-				if s.m.Match(wires[i]) != want[i] {
+				if s.match(wires[i]) != want[i] {
 					bad = i
 				}
 				if n&0xfff == 0 && time.Since(t0) > dur {
@@ -466,6 +525,13 @@ func randomLists(lists, entries, probes int) {
 			}
 			cps = append(cps, append(append(name{}, deep...), es[i].n...))
 			cps = append(cps, append(append(append(name{}, deep...), es[i].n...), []byte("no-such-top-label")))
+		}
+		// the same entries once more as the files of one domain set of the router's configuration, loaded by the
+		// router's own loader: the files end with or without a final newline
+		if li%3 == 1 {
+			s3 := newSession()
+			s3.loadFiles(es, 2+rng.Intn(2))
+			s3.probe(ps)
 		}
 		if li%2 == 0 {
 			// on a set without regexp entries (their evaluation dwarfs the walk of the label tree and goes through
